@@ -125,10 +125,16 @@ func runOps(seed int64, nops int, flush, slots, thresh int) (sigs []string) {
 			reuse = pj
 			cerr := read.Compare(pj, []abs.Value{d.Value})
 			sigs = append(sigs, sig("large", len(pj.Tape), pj.Tape[len(pj.Tape)/2], cerr))
-		case 3: // large invalid
+		case 3: // large invalid - on a fresh object, or on the worker's own reused object (which it keeps using afterwards)
 			d := pipe.BuildDocMin(r, (slots+2)*flush, flush*3, false, thresh+64)
-			_, err := simdjson.Parse(d.Text, nil)
-			sigs = append(sigs, sig("large-invalid", err != nil))
+			if r.Intn(2) == 0 {
+				_, err := simdjson.Parse(d.Text, nil)
+				sigs = append(sigs, sig("large-invalid", err != nil))
+			} else {
+				_, err := simdjson.Parse(d.Text, reuse)
+				_, err2 := simdjson.Parse([]byte(`{"broken":tru}`), reuse)
+				sigs = append(sigs, sig("invalid-on-own-object", err != nil, err2 != nil))
+			}
 		case 4: // ParseND + clone + edit the clone
 			o := gen.Default
 			o.NoLF = true
